@@ -255,7 +255,11 @@ deriving DecidableEq, Repr, Inhabited
 structure GridTerm where
   cells : Int → Int → TCell
   line : Int
+  /-- the cursor column; `col = cols` is the pending-wrap state of a VT (the cursor sits on the last column and the next
+      character goes to the next line) -/
   col : Int
+  /-- the width of the terminal -/
+  cols : Int
   /-- the cell holding the last character of width ≥ 1 printed since the last cursor movement -/
   last : Option (Int × Int) := none
   /-- `tt->pen`, which is also the `final` pen the driver has been handed last -/
@@ -268,8 +272,8 @@ structure GridTerm where
 
 namespace GridTerm
 
-/-- A character of width `w ≥ 1` at the cursor. -/
-def putGlyph (t : GridTerm) (bs : List UInt8) (w : Int) : GridTerm :=
+/-- A character of width `w ≥ 1` written at the cursor, no questions asked. -/
+def putGlyphRaw (t : GridTerm) (bs : List UInt8) (w : Int) : GridTerm :=
   { t with
     cells := fun l c =>
       if l = t.line ∧ t.col ≤ c ∧ c < t.col + w then
@@ -277,6 +281,14 @@ def putGlyph (t : GridTerm) (bs : List UInt8) (w : Int) : GridTerm :=
       else t.cells l c
     col := t.col + w
     last := some (t.line, t.col) }
+
+/-- The deferred wrap of a VT: to column 0 of the next line (no scrolling: the plane is unbounded downwards). -/
+def wrap (t : GridTerm) : GridTerm := { t with line := t.line + 1, col := 0 }
+
+/-- A character of width `w ≥ 1` arrives: if it does not fit on the line — in particular in the pending-wrap state
+    `col = cols` — the cursor wraps first (DEC autowrap); printing into the last column leaves `col = cols`. -/
+def putGlyph (t : GridTerm) (bs : List UInt8) (w : Int) : GridTerm :=
+  (if t.col + w > t.cols then t.wrap else t).putGlyphRaw bs w
 
 /-- A zero-width character: attached to the last character printed, dropped when there is none. -/
 def addZeroWidth (t : GridTerm) (bs : List UInt8) : GridTerm :=
@@ -316,27 +328,31 @@ def reqBytes (viaWriteStr : Bool) (s : List UInt8) (start len : Nat) : List UInt
   if len = 0 && viaWriteStr then (s.drop start).takeWhile (· ≠ 0)
   else (s.drop start).take len
 
-/-- The driver's `goto_abs`. -/
-def goto (t : GridTerm) (line col : Int) : GridTerm := { t with line := line, col := col, last := none }
+/-- The driver's `goto_abs`: the column is clamped to the screen; every cursor movement ends the pending-wrap state. -/
+def goto (t : GridTerm) (line col : Int) : GridTerm :=
+  { t with line := line, col := max 0 (min col (t.cols - 1)), last := none }
 
 /-- `tickit_term_setpen` followed by the driver's `chpen(delta, final)`. -/
 def setpen (t : GridTerm) (p : Pen) : GridTerm := { t with pen := termSetpen t.pen p }
 
-/-- The driver's `erasech(count, moveend)`. -/
+/-- The driver's `erasech(count, moveend)`, as ECH (+ CUF): blanks from the cursor — which in the pending-wrap state is
+    on the last column — to at most the right edge; the cursor stays, or moves right (clamped, ending pending wrap). -/
 def erasech (t : GridTerm) (n : Int) (m : MaybeBool) : GridTerm :=
   if n < 1 then t
   else
+    let start := min t.col (t.cols - 1)
     let t' : GridTerm :=
       { t with
         cells := fun l c =>
-          if l = t.line ∧ t.col ≤ c ∧ c < t.col + n then
+          if l = t.line ∧ start ≤ c ∧ c < start + n ∧ c < t.cols then
             { glyph := .blank, pen := t.pen, writes := (t.cells l c).writes + 1 }
           else t.cells l c
         last := none }
     match m with
-    | .yes => { t' with col := t.col + n }
+    | .yes => { t' with col := min (start + n) (t.cols - 1) }
     | .no => t'
-    | .maybe => { t' with col := if t.oracle t.nmaybe then t.col + n else t.col, nmaybe := t.nmaybe + 1 }
+    | .maybe =>
+      { t' with col := if t.oracle t.nmaybe then min (start + n) (t.cols - 1) else t.col, nmaybe := t.nmaybe + 1 }
 
 /-- One request. -/
 def step (t : GridTerm) : Req → GridTerm
@@ -543,6 +559,136 @@ def cellOK (w : Want) (old new : TCell) : Bool :=
     (match new.glyph with
      | .chars bs => lineGlyphOK m bs
      | _ => false) && penSame new.pen p && new.writes == old.writes + 1
+
+/-! ## The library's mock terminal (src/mockterm.c), second configuration of the correspondence check
+
+  `MockTerm` mirrors `mtd_goto_abs`, `mtd_print`, `mtd_erasech` and `mtd_chpen` statement by statement: goto is clamped to
+  the screen, `erasech` moves the cursor unless `moveend == TICKIT_NO`, a cell holds the bytes of one grapheme (`" "`
+  after an erase, NULL for the second column of a double-width character) and a clone of the driver's pen.  `mtd_print`
+  writes `linecells[cols]` when a double-width character starts in the last column: that heap overflow is the `crashed`
+  flag (known finding `mockterm_wide_at_edge`).  No theorem is about this model; the specification `want`/`cellOK` is
+  evaluated on what the real mock terminal displays. -/
+
+/-- `MockTermCell`: `str` (`none` = NULL) and pen. -/
+structure MCell where
+  str : Option (List UInt8) := some [0x20]
+  pen : Pen := {}
+deriving DecidableEq, Repr, Inhabited
+
+structure MockTerm where
+  lines : Int
+  cols : Int
+  cells : Int → Int → MCell
+  line : Int := -1
+  col : Int := -1
+  /-- `tt->pen` (src/term.c); the driver's `mtd->pen` is a copy of the `final` pen, i.e. the same attributes -/
+  pen : Pen := {}
+  /-- `mtd_print` wrote past the end of a line -/
+  crashed : Bool := false
+  /-- `mtd_print` does not terminate (a byte string the width counter rejects) -/
+  hung : Bool := false
+
+namespace MockTerm
+
+/-- `BOUND(var, min, max)`. -/
+def bound (v lo hi : Int) : Int :=
+  let v := if v < lo then lo else v
+  if v > hi then hi else v
+
+/-- `mtd_goto_abs`. -/
+def goto (t : MockTerm) (line col : Int) : MockTerm :=
+  { t with line := bound line 0 (t.lines - 1), col := bound col 0 (t.cols - 1) }
+
+/-- `tickit_term_setpen` + `mtd_chpen`. -/
+def setpen (t : MockTerm) (p : Pen) : MockTerm := { t with pen := termSetpen t.pen p }
+
+/-- `mtd_erasech`. -/
+def erasech (t : MockTerm) (count : Int) (m : MaybeBool) : MockTerm :=
+  let right := bound (t.col + count) 0 t.cols
+  let t' : MockTerm :=
+    { t with cells := fun l c =>
+        if l = t.line ∧ t.col ≤ c ∧ c < right then { str := some [0x20], pen := t.pen } else t.cells l c }
+  match m with
+  | .no => t'
+  | _ => { t' with col := right }
+
+/-- The `while(pos.bytes < len)` loop of `mtd_print`; `lim` is `limit.columns`. -/
+def printLoop (bs : List UInt8) : Nat → MockTerm → Utf8.StrPos → Int → MockTerm
+  | 0, t, _, _ => { t with hung := true }
+  | fuel + 1, t, pos, lim =>
+    if ¬ pos.bytes < bs.length then { t with col := pos.columns }
+    else
+      let lim := lim + 1
+      let pos' := (Utf8.ncountmore bs (some bs.length) pos (some ⟨bs.length, -1, -1, lim⟩)).pos
+      if pos'.columns = pos.columns then printLoop bs fuel t pos' lim
+      else
+        -- "Wrap but don't scroll"
+        let wrapped := decide (pos.columns ≥ t.cols)
+        let line := if wrapped ∧ t.line < t.lines - 1 then t.line + 1 else t.line
+        let sc := if wrapped then 0 else pos.columns
+        let slice := (bs.drop pos.bytes.toNat).take (pos'.bytes - pos.bytes).toNat
+        let t' : MockTerm :=
+          { t with
+            line := line
+            cells := fun l c =>
+              if l = line ∧ c = sc then { str := some slice, pen := t.pen }
+              else if l = line ∧ sc < c ∧ c < pos'.columns ∧ c < t.cols then { str := none, pen := t.pen }
+              else t.cells l c
+            -- "Empty out the other cells for doublewidth": `linecells[start.columns]` up to `pos.columns − 1`
+            crashed := t.crashed || decide (sc + 1 < pos'.columns ∧ pos'.columns > t.cols) || decide (sc < 0) }
+        printLoop bs fuel t' pos' lim
+
+/-- `mtd_print(str, len)`. -/
+def print (t : MockTerm) (bs : List UInt8) : MockTerm :=
+  printLoop bs (2 * bs.length + 2) t { columns := t.col } t.col
+
+/-- One request. -/
+def step (t : MockTerm) : Req → MockTerm
+  | .goto l c => t.goto l c
+  | .setpen p => t.setpen p
+  | .print s start len => t.print ((s.drop start).take len)
+  | .erasech n m => t.erasech n m
+
+def run (t : MockTerm) : List Req → MockTerm
+  | [] => t
+  | r :: rs => run (t.step r) rs
+
+/-- `tickit_mockterm_new(lines, cols)`. -/
+def new (lines cols : Int) : MockTerm := { lines := lines, cols := cols, cells := fun _ _ => {} }
+
+/-- Re-tabulate (execution speed only). -/
+def compact (t : MockTerm) : MockTerm :=
+  let tab : Array (Array MCell) :=
+    Array.ofFn (n := t.lines.toNat) fun l => Array.ofFn (n := t.cols.toNat) fun c => t.cells l.val c.val
+  let old := t.cells
+  { t with cells := fun l c =>
+      if 0 ≤ l ∧ 0 ≤ c then
+        match tab[l.toNat]? with
+        | some row =>
+          match row[c.toNat]? with
+          | some x => x
+          | none => old l c
+        | none => old l c
+      else old l c }
+
+end MockTerm
+
+/-- What the mock terminal shows for a glyph. -/
+def mockStr : Glyph → Option (List UInt8)
+  | .blank => some [0x20]
+  | .chars bs => some bs
+  | .wcont => none
+
+/-- `cellOK` for the mock terminal, which does not count writes: glyph and rendition. -/
+def mcellOK (w : Want) (old new : MCell) : Bool :=
+  match w with
+  | .keep => new == old
+  | .unspecified => true
+  | .glyph g p => new.str == mockStr g && penSame new.pen p
+  | .line m p =>
+    (match new.str with
+     | some bs => lineGlyphOK m bs
+     | none => false) && penSame new.pen p
 
 /-! ## Well-formedness of a buffer as far as the flush looks at it (decidable form)
 
